@@ -86,6 +86,11 @@ OPTION_KEEPS = {'as_ref', 'as_mut', 'as_deref', 'as_deref_mut', 'as_slice', 'map
                 'unwrap_or_default', 'is_some', 'is_none', 'ok_or', 'ok_or_else', 'inspect', 'from', 'into', 'deref'}
 
 
+def canon_ty(x):
+    """best-effort: the spelled callee of a clone call (the receiver type is not in the term)"""
+    return x[1]
+
+
 def positional_fill(ctx, rep, d, n):
     """Witness bytes written positionally (`buf[a..b].copy_from_slice(x)` inside loops over the openings / blinding factors) instead of
     appended: every iteration must write its own bytes.  Decided on the offset terms: (1) the offset of a write depends on the index of
@@ -277,6 +282,12 @@ def run(ctx):
                   ctx.where(e.body, e.bb))
 
     # ---- R-C14-3 ---------------------------------------------------------------------------------------
+    # "live": there is one transcript on the prover path.  With a copy in play (absorb into the copy, build the RNG from the original, or the
+    # reverse) an RNG can be taken from a state that lacks what was just absorbed although every construction has the right shape.
+    clones = [e for e in evs if e.kind == 'transcript_clone']
+    rep.check(not clones, 'R-C14-3', 'R-C14-3/live-transcript', 'no copy of the transcript is made on the prover path: every RNG is built from the one live state',
+              'the transcript is cloned on the prover path (%d site(s)): absorptions and RNG constructions may act on different states' % len(clones),
+              ctx.where(clones[0].body, clones[0].bb) if clones else ctx.where(prover))
     tparams = [i for i in range(1, prover.argc + 1) if 'merlin::Transcript' in prover.local_ty(i)]
     for n, e in enumerate(fins):
         chain0 = strip(e.args[0])
@@ -299,7 +310,7 @@ def run(ctx):
                     break
                 t = strip(t[2][0])
             shapes.append(shape)
-            cloned = cloned or any(x.tag == 'call' and x[1].endswith('Transcript::clone') for x in walk(chain))
+            cloned = cloned or any(x.tag == 'call' and x[1].endswith(('Transcript::clone', 'Clone::clone')) and 'Transcript' in canon_ty(x) for x in walk(chain))
         good_shape = all(shape in (['rekey_with_witness_bytes', 'build_rng'], ['build_rng']) for shape in shapes)
         rep.check(ok and good_shape and not cloned, 'R-C14-3', 'R-C14-3/finalize/%02d' % n,
                   'finalize #%d = finalize(%s of the live caller transcript, external)' % (n, ' | '.join('∘'.join(sh) for sh in shapes)),
